@@ -131,4 +131,85 @@ theorem C01_roundtrip_over_any_transport (sd : SD) (v : Val) (bs more : Bytes) (
     · rw [e3, hc.2.2]; simp
     · rw [e5, hc.2.2]
 
+/-! ### many messages on one stream -/
+
+/-- one written message: its type, the value handed to Encode, the bytes Encode produced -/
+structure Sent where
+  sd : SD
+  value : Val
+  bytes : Bytes
+
+/-- Encode accepted a well-formed value of a well-formed type -/
+def Sent.Ok (m : Sent) : Prop :=
+  m.sd.descOk = true ∧ SD.OK m.sd = true ∧ m.sd.tag < tagMax ∧ WFv (.struct m.sd) m.value ∧
+    (canonTop m.sd m.value).Small = true ∧ encodeSD m.sd m.value = .ok m.bytes
+
+/-- what Encode wrote for a well-formed value is one whole message, denoting the normalised value -/
+theorem whole_of_encoded (m : Sent) (h : m.Ok) : (Msg.mk m.sd m.bytes (normVal (.struct m.sd) m.value)).Whole := by
+  obtain ⟨hd, hok, ht, hw, hs, henc⟩ := h
+  have hb := C02_canonical m.sd m.value m.bytes henc
+  have hv := V_canon m.sd.tag [] (.struct m.sd) [] ht (fun sd' e => by cases e; exact ⟨hd, hok⟩) m.value hw hs
+  rw [specValue, if_pos hd, List.append_nil] at hv
+  refine ⟨hd, ?_⟩
+  show specStruct m.sd.tag m.sd m.bytes = some (normVal (.struct m.sd) m.value, [])
+  rw [hb]
+  exact hv
+
+theorem concat_sent : ∀ (ms : List Sent),
+    concatMsgs (ms.map (fun m => Msg.mk m.sd m.bytes (normVal (.struct m.sd) m.value))) = (ms.map Sent.bytes).flatten
+  | [] => rfl
+  | m :: rest => by
+    simp only [List.map_cons, concatMsgs, List.flatten_cons]
+    rw [concat_sent rest]
+
+/-- **C01 and C06 together: a conversation.**  Any number of well-formed values (of whatever types: requests, responses,
+    mixed), each written by Encode, back to back on one stream; a transport that fragments the stream in ANY way (guard
+    `Stack.Inv`) and then ends cleanly; ONE Decoder on the other side, asked for those types in turn.  It returns the values one
+    by one, in order, each up to the documented normalisation and with the count of exactly its own encoded bytes; nothing is
+    left buffered; one more Decode reports raw io.EOF. -/
+theorem C01_conversation_over_any_transport (ms : List Sent) (hok : ∀ m ∈ ms, m.Ok) (src : Io.Src)
+    (hi : (Io.Stack.top src).Inv) (hflat : src.flat = (ms.map Sent.bytes).flatten) (hfin : src.fin = .eof) :
+    (Stk.decodeStream (ms.map Sent.sd) ⟨Io.Stack.top src, 0⟩).1 =
+        ms.map (fun m => (normVal (.struct m.sd) m.value, m.bytes.length)) ∧
+    (Stk.decodeStream (ms.map Sent.sd) ⟨Io.Stack.top src, 0⟩).2.1 = none ∧
+    (Stk.decodeStream (ms.map Sent.sd) ⟨Io.Stack.top src, 0⟩).2.2.s.content = [] ∧
+    (∀ sd : SD, sd.descOk = true →
+      viewS (Stk.decStruct sd.tag sd (Stk.decodeStream (ms.map Sent.sd) ⟨Io.Stack.top src, 0⟩).2.2) = .err .eof) := by
+  let ws : List Msg := ms.map (fun m => Msg.mk m.sd m.bytes (normVal (.struct m.sd) m.value))
+  have hw : ∀ w ∈ ws, w.Whole := by
+    intro w hmem
+    obtain ⟨m, hm, rfl⟩ := List.mem_map.mp hmem
+    exact whole_of_encoded m (hok m hm)
+  have hcat : concatMsgs ws = (ms.map Sent.bytes).flatten := concat_sent ms
+  have hsd : ws.map Msg.sd = ms.map Sent.sd := by
+    show (ms.map _).map Msg.sd = _
+    rw [List.map_map]; rfl
+  have hval : ws.map (fun w => (w.value, w.bytes.length)) = ms.map (fun m => (normVal (.struct m.sd) m.value, m.bytes.length)) := by
+    show (ms.map _).map _ = _
+    rw [List.map_map]; rfl
+  obtain ⟨g1, g2, g3, _, g5⟩ := C06_stream_over_any_chunking ws hw src hi (by rw [hflat, hcat]) hfin
+  rw [hsd] at g1 g2 g3 g5
+  exact ⟨by rw [g1, hval], g2, g3, g5⟩
+
+/-- non-vacuity: two Name structures written back to back, delivered in five reads (one of them empty) - every hypothesis of
+    the conversation theorem holds -/
+def exSentName : Sent := ⟨exName, exNameVal, (canonTop exName exNameVal).ser⟩
+
+theorem exSentName_ok : exSentName.Ok := by
+  refine ⟨by decide, by decide, by decide, ?_, by decide, rfl⟩
+  simp [exSentName, WFv, WFflds, WFfv, exName, exNameVal, SD.fields, Fld.slice, Fld.ignored, Fld.tag, Fld.skip, Fld.ty, two32, anyTag]
+
+def exConvSrc : Io.Src :=
+  ⟨[exSentName.bytes.take 5, [], exSentName.bytes.drop 5 ++ exSentName.bytes.take 11, exSentName.bytes.drop 11], .eof, false⟩
+
+example : (∀ m ∈ [exSentName, exSentName], m.Ok) ∧ (Io.Stack.top exConvSrc).Inv ∧
+    exConvSrc.flat = ([exSentName, exSentName].map Sent.bytes).flatten ∧ exConvSrc.fin = .eof := by
+  refine ⟨?_, ?_, by decide, rfl⟩
+  · intro m hm
+    simp only [List.mem_cons, List.mem_nil_iff, or_false, or_self] at hm
+    subst hm
+    exact exSentName_ok
+  · simp only [Io.Stack.top, Io.Stack.Inv]
+    refine ⟨⟨by decide, by decide⟩, by decide, by simp⟩
+
 end Kmip
